@@ -238,7 +238,7 @@ impl Runner {
         if stale {
             let clock = self.drv.as_ref().map(|(_, d)| d.clock);
             if let Some((_, d)) = self.drv.take() {
-                d.node.shutdown();
+                d.node.destroy();
             }
             self.boots += 1;
             let mut d = Driver::boot_with(&ctx.scratch.join(format!("c12-pool-{}", self.boots)), &self.world.cons, pool_config(), mine)?;
